@@ -278,4 +278,58 @@ Section Tokens.
     rewrite (bind_ok _ _ _ _ _ E2). exists r2. unfold ret. cbn [app]. repeat split; auto; congruence.
   Qed.
 
+
+  (* ---- symbols that begin with a non-ASCII letter ---- *)
+  Definition high_arm (fuel : nat) (b0 : N) : M token :=
+    eat_char ;;;
+    r <- decode_utf8_sequence_b b0 ;;
+    if negb (alpha (snd r)) then peek_error ExpectedSomeValue
+    else name <- parse_symbol_suffix fuel (fst r) ;; ret (symbol_token ro name).
+
+  Lemma token_high fuel b0 : 127 < b0 -> parse_token fuel b0 = high_arm fuel b0.
+  Proof.
+    intros H. unfold Parser.parse_token.
+    replace (b0 =? 35) with false by lia. replace ((b0 =? 45) || (b0 =? 43)) with false by lia.
+    replace (is_digit b0) with false by (unfold is_digit, in_range; lia).
+    replace (b0 =? 34) with false by lia. replace (b0 =? 40) with false by lia.
+    replace (b0 =? 91) with false by lia. replace (b0 =? 58) with false by lia.
+    replace (is_ascii_alpha b0) with false by (unfold is_ascii_alpha, is_ascii_lower, is_ascii_upper, in_range; lia).
+    replace (b0 =? 63) with false by lia. cbn [andb].
+    replace (b0 =? 39) with false by lia. replace (b0 =? 96) with false by lia. replace (b0 =? 44) with false by lia.
+    replace (127 <? b0) with true by lia. reflexivity.
+  Qed.
+
+  Definition cont_len (b0 : N) : nat := if in_range 192 223 b0 then 1%nat else N.to_nat ((b0 - 192) / 16).
+  Definition lead_ok (b0 : N) : bool := in_range 192 223 b0 || in_range 224 247 b0.
+
+  Lemma take_bytes_spec l : forall acc r tail, at_bytes r (l ++ tail) ->
+    exists r', take_bytes (length l) acc r = (Ok (acc ++ l), r') /\ at_bytes r' tail /\ rk r' = rk r.
+  Proof.
+    induction l as [|c l IH]; intros acc r tail Ha; cbn [length take_bytes app] in *.
+    - exists r. unfold ret. rewrite app_nil_r. auto.
+    - step. destruct (IH (acc ++ [c]) r0 tail Ha0) as (r1 & E & Ha1 & Hk1).
+      exists r1. rewrite E, <- app_assoc. repeat split; auto; congruence.
+  Qed.
+
+  Lemma tok_symbol_nonascii fuel r b0 conts s' rest :
+    127 < b0 -> lead_ok b0 = true -> length conts = cont_len b0 -> utf8_valid (b0 :: conts) = true ->
+    alpha (utf8_decode_head (b0 :: conts)) = true ->
+    (length s' < fuel)%nat -> no_terminator s' -> at_terminator rest -> symbol_ok ((b0 :: conts) ++ s') ->
+    at_bytes r ((b0 :: conts) ++ s' ++ rest) -> peeked r ->
+    exists r', parse_token fuel b0 r = (Ok (TSymbol ((b0 :: conts) ++ s')), r') /\ at_bytes r' rest /\ rk r' = rk r.
+  Proof.
+    intros Hhi Hlead Hlen Hv Hal Hf Hn Ht Hok Ha Hp. rewrite (token_high fuel b0 Hhi). unfold high_arm.
+    cbn [app] in Ha. step.
+    assert (Ed : exists r1, decode_utf8_sequence_b b0 r0 = (Ok (b0 :: conts, utf8_decode_head (b0 :: conts)), r1) /\
+                            at_bytes r1 (s' ++ rest) /\ rk r1 = rk r0).
+    { unfold decode_utf8_sequence_b. unfold lead_ok in Hlead. rewrite Hlead. cbv zeta.
+      fold (cont_len b0). rewrite <- Hlen.
+      destruct (take_bytes_spec conts [b0] r0 (s' ++ rest) Ha0) as (r1 & E1 & Ha1 & Hk1).
+      rewrite (bind_ok _ _ _ _ _ E1). cbn [app]. rewrite Hv. exists r1. unfold ret. auto. }
+    destruct Ed as (r1 & E1 & Ha1 & Hk1). rewrite (bind_ok _ _ _ _ _ E1). cbn [fst snd]. rewrite Hal. cbn [negb].
+    unfold parse_symbol_suffix.
+    destruct (parse_symbol_spec s' fuel (b0 :: conts) rest r1 Hf Hn Ht Ha1 Hok) as (r2 & E2 & Ha2 & Hk2 & _).
+    rewrite (bind_ok _ _ _ _ _ E2). exists r2. unfold ret. repeat split; auto; congruence.
+  Qed.
+
 End Tokens.
